@@ -56,6 +56,8 @@ REPO = Path(os.environ.get("VERIF_REPO", "/repo"))
 SRC_GEN = "pybads/poll/poll_mads_2n.py"
 SRC_BADS = "pybads/bads/bads.py"
 SRC_CC = "pybads/function_logger/constraints_check.py"
+SRC_PC = "pybads/utils/period_check.py"
+SRC_FG = "pybads/search/grid_functions.py"
 OUT = VERIF / "coq" / "gen" / "Src_poll.v"
 REF = Path(__file__).with_name("poll_reference.json")
 PARAMS = ["dim_x", "poll_scale", "search_mesh_size", "mesh_size"]
@@ -365,7 +367,7 @@ def subst(ir, m):
 def parse_gen():
     region("generator")
     text = (REPO / SRC_GEN).read_text()
-    tree = ast.parse(text)
+    tree = parse_quiet(text)
     np_name, rnd_name = module_aliases(tree, SRC_GEN)
     fns = [n for n in ast.walk(tree) if isinstance(n, (ast.FunctionDef, ast.AsyncFunctionDef, ast.Lambda, ast.ClassDef))]
     if len(fns) != 1 or not isinstance(fns[0], ast.FunctionDef) or fns[0].name != "poll_mads_2n" or fns[0] not in tree.body:
@@ -468,7 +470,7 @@ def same(node, text):
 
 def proj_default():
     text = (REPO / SRC_CC).read_text()
-    fns = [n for n in ast.parse(text).body if isinstance(n, ast.FunctionDef) and n.name == "contraints_check"]
+    fns = [n for n in parse_quiet(text).body if isinstance(n, ast.FunctionDef) and n.name == "contraints_check"]
     if len(fns) != 1:
         fail(text[:40], "contraints_check not found exactly once", SRC_CC)
     a = fns[0].args
@@ -480,6 +482,35 @@ def proj_default():
     if not (isinstance(v, ast.Constant) and type(v.value) is bool):
         fail(fns[0], "default of proj is not a bool literal", SRC_CC)
     return v.value
+
+
+def parse_quiet(text):
+    import warnings
+    with warnings.catch_warnings():
+        warnings.simplefilter("ignore")
+        return ast.parse(text)
+
+
+def check_helpers():
+    """the two helpers the refill block calls are READ AS: period_check = identity, force_to_grid(x, s) = s * np.round(x / s).
+    Their bodies must literally be that (anything else raises: the reading would be unjustified)."""
+    t = parse_quiet((REPO / SRC_PC).read_text())
+    fns = [n for n in t.body if isinstance(n, ast.FunctionDef) and n.name == "period_check"]
+    if len(fns) != 1:
+        fail(t.body[0] if t.body else "?", "period_check not found exactly once", SRC_PC)
+    b = body_wo_doc(fns[0])
+    if not (len(b) == 1 and isinstance(b[0], ast.Return) and isinstance(b[0].value, ast.Name) and fns[0].args.args
+            and b[0].value.id == fns[0].args.args[0].arg):
+        fail(fns[0], "period_check is no longer `return <first argument>` (periodic variables are outside the model)", SRC_PC)
+    t = parse_quiet((REPO / SRC_FG).read_text())
+    fns = [n for n in t.body if isinstance(n, ast.FunctionDef) and n.name == "force_to_grid"]
+    if len(fns) != 1:
+        fail(t.body[0] if t.body else "?", "force_to_grid not found exactly once", SRC_FG)
+    want = ast.parse("def force_to_grid(x, search_mesh_size, tol=None):\n    if tol is None:\n        tol = search_mesh_size\n    return tol * np.round(x / tol)\n").body[0]
+    got = fns[0]
+    if ast.dump(ast.Module(body=body_wo_doc(got), type_ignores=[])) != ast.dump(ast.Module(body=want.body, type_ignores=[])) \
+            or ast.dump(got.args) != ast.dump(want.args):
+        fail(got, "force_to_grid is no longer `tol = search_mesh_size if tol is None; return tol * np.round(x / tol)`", SRC_FG)
 
 
 def index_off(n, tr, node):
@@ -494,8 +525,9 @@ def index_off(n, tr, node):
 
 def parse_cand():
     region("candidates")
+    check_helpers()
     text = (REPO / SRC_BADS).read_text()
-    tree = ast.parse(text)
+    tree = parse_quiet(text)
     calls = {}
     for nm in ("poll_mads_2n", "force_to_grid", "contraints_check", "period_check"):
         al = imported_as(tree, "", nm)
